@@ -74,7 +74,7 @@ def step (s : Sess) (c : Cmd) : Sess × String × String :=
   | "new" | "new_default" =>
     if (getM s k).isSome then early s m "busy" else
     let cap := if c.op == "new" then c.nat "cap" Gen.DEQUE_DEFAULT_CAPACITY else Gen.DEQUE_DEFAULT_CAPACITY
-    let r := Queue.new cap m
+    let r := Queue.new cap (if c.op == "new" then .conf else .libc) m   -- cc_queue_new: C library triple
     let sp : Stat × Option Fifo := if refused then (.errAlloc, none) else (.ok, some {})
     fin (setS (setM { s with mem := r.2.2 } k r.2.1) k sp.2) (fmtStat sp.1) (fmtStat r.1)
   | "destroy" =>
